@@ -162,6 +162,17 @@ class Arr:
         return "Arr%r" % (self.items,)
 
 
+class VecV:
+    """Vec<T> / owned buffer: python list of values, mutated in place through &mut (each path re-executes from scratch)"""
+    __slots__ = ("items",)
+
+    def __init__(self, items=()):
+        self.items = list(items)
+
+    def __repr__(self):
+        return "Vec%r" % (self.items,)
+
+
 class Cell:
     __slots__ = ("v",)
 
@@ -191,6 +202,17 @@ class Closure:
         return "Closure(%s)" % self.name
 
 
+class FnItem:
+    """a function used as a value"""
+    __slots__ = ("name",)
+
+    def __init__(self, name):
+        self.name = name
+
+    def __repr__(self):
+        return "FnItem(%s)" % self.name
+
+
 class Opaque:
     """value whose content the properties never look at (fmt::Arguments, error message Strings...)"""
     __slots__ = ("tag", "payload")
@@ -214,12 +236,32 @@ DISCR = {
 
 
 _ENUMS = {}
+_CONSTS = {}
+
+
+def _crate_consts():
+    """integer `const NAME: ty = literal;` items of the repository (for enum discriminant expressions)"""
+    if not _CONSTS:
+        import glob
+        for p in glob.glob(os.path.join(REPO_ROOT[0], "src", "**", "*.rs"), recursive=True):
+            try:
+                txt = open(p).read()
+            except OSError:
+                continue
+            for m in re.finditer(r"\bconst\s+(\w+)\s*:\s*[iu](?:8|16|32|64|size)\s*=\s*([0-9xXa-fA-F_o]+)\s*;", txt):
+                try:
+                    _CONSTS[m.group(1)] = int(m.group(2).replace("_", ""), 0)
+                except ValueError:
+                    pass
+        _CONSTS.setdefault("_", 0)
+    return _CONSTS
 
 
 def crate_enum_discr(ty):
     """variant -> discriminant for an enum declared in the repository (parsed from the source)"""
     if not _ENUMS:
         import glob
+        deferred = []
         for p in glob.glob(os.path.join(REPO_ROOT[0], "src", "**", "*.rs"), recursive=True):
             try:
                 txt = open(p).read()
@@ -267,12 +309,20 @@ def crate_enum_discr(ty):
                         try:
                             nxt = int(vm.group(2).strip().replace("_", ""), 0)
                         except ValueError:
-                            ok = False
-                            break
+                            try:
+                                nxt = int(eval(vm.group(2).strip(), {"__builtins__": {}}, _crate_consts()))
+                            except Exception:  # noqa: BLE001
+                                deferred.append((m.group(1), vm.group(1), vm.group(2).strip()))
+                                nxt = 0
+                                continue
                     variants[vm.group(1)] = nxt
                     nxt += 1
                 if ok and variants:
                     _ENUMS.setdefault(m.group(1), variants)
+        for en, var, expr in deferred:
+            mm = re.match(r"^(\w+)::(\w+)\s+as\s+\w+$", expr)
+            if mm and en in _ENUMS and mm.group(1) in _ENUMS and mm.group(2) in _ENUMS[mm.group(1)]:
+                _ENUMS[en][var] = _ENUMS[mm.group(1)][mm.group(2)]
     return _ENUMS.get(ty)
 
 
@@ -347,10 +397,31 @@ def impl_info(name):
         for k in range(l0 - 1, min(len(lines), l0 + 40)):
             dm = re.match(r"\s*(?:pub(?:\([a-z]+\))?\s+)?(?:struct|enum)\s+(\w+)", lines[k])
             if dm:
-                info = (base_name(tr), dm.group(1))
+                info = ("derive:" + base_name(tr), dm.group(1))
                 break
     _SRC_CACHE[key] = info
     return info
+
+
+def impl_generics(name):
+    """type parameter names of the impl block of a MIR function (from the source text `impl<'a, T: Bound> ...`)"""
+    m = IMPL_RE.search(name)
+    if not m:
+        return []
+    path = os.path.join(REPO_ROOT[0], m.group(1))
+    try:
+        line = open(path).read().split("\n")[int(m.group(2)) - 1][int(m.group(3)) - 1:]
+    except (OSError, IndexError):
+        return []
+    mm = re.match(r"impl\s*<([^>]*)>", line.strip())
+    if not mm:
+        return []
+    out = []
+    for p in mm.group(1).split(","):
+        p = p.strip()
+        if p and not p.startswith("'"):
+            out.append(p.split(":")[0].strip())
+    return out
 
 
 def base_name(t):
@@ -390,6 +461,8 @@ class Exec:
         self.worklist = []
         self.steps = 0
         self.promoted_cache = {}
+        self.overrides = {}    # stubs that take precedence over the crate's own MIR bodies (listed in the evidence as override:<name>)
+        self.type_env = {}     # bindings for generic type parameters of the entry function (e.g. {"T": "IndexTag"})
 
     # ---- solver / forking -------------------------------------------------------------------------
     def _check(self, *extra):
@@ -520,6 +593,13 @@ class Exec:
                     raise Unsupported("diverging call returned: " + t.func)
                 bb = t.target
             elif k == "drop":
+                # Drop impls that matter are modelled on the python objects standing for std types (e.g. BufWriter flushes on drop)
+                try:
+                    dv = self.read_place(frame, M.parse_place(t.place))
+                    if hasattr(dv, "on_drop"):
+                        dv.on_drop(self)
+                except Unsupported:
+                    pass
                 bb = t.target
             elif k == "assert":
                 v = self.eval_operand(frame, t.cond)
@@ -560,10 +640,17 @@ class Exec:
             clo = args[0]
             while isinstance(clo, Ref):
                 clo = self.read_ref(clo)
+            tup = args[1]
+            if isinstance(clo, FnItem):
+                return self.do_call(clo.name, list(tup.items))
+            if hasattr(clo, "call"):
+                return clo.call(self, list(tup.items))
             if not isinstance(clo, Closure):
                 raise Unsupported("Fn::call on non-closure %r" % (clo,))
-            tup = args[1]
             return self.call_closure(clo, tup.items)
+        if name in self.overrides:
+            self.stats.intrinsics.add("override:" + name)
+            return self.overrides[name](self, args, func)
         if name in ("panic", "core::panicking::panic", "std::rt::begin_panic", "panic_fmt", "core::panicking::panic_fmt"):
             raise PathEnd("panic", args[0] if args else "")
         if name in self.funcs and not name.startswith("<"):
@@ -575,6 +662,15 @@ class Exec:
         if m:
             selfn, traitn, meth = base_name(m.group(1)), base_name(m.group(2)), m.group(3)
             f = self.find_impl(meth, traitn, selfn)
+            if f is None and selfn in self.type_env:
+                f = self.find_impl(meth, traitn, self.type_env[selfn])
+            if f is None and args:
+                # generic self type (`<T as Trait>::m`): dispatch on the runtime type of the receiver
+                rv = args[0]
+                while isinstance(rv, Ref):
+                    rv = self.read_ref(rv)
+                if isinstance(rv, Adt):
+                    f = self.find_impl(meth, traitn, rv.ty)
             if f is None and traitn == "Into":
                 # blanket Into -> the crate's From impl for the target type
                 tgt = re.search(r"Into<(.*)>$", m.group(2))
@@ -587,6 +683,19 @@ class Exec:
             if len(parts) >= 2:
                 f = self.find_impl(parts[-1], None, base_name(parts[-2]))
                 if f is not None:
+                    # bind the impl's generic type parameters from the turbofish on the type: `Header::<IndexTag>::parse`
+                    tm = re.search(r"\b%s::<([^<>]*)>::%s\b" % (re.escape(parts[-2]), re.escape(parts[-1])), func)
+                    gp = impl_generics(f.name)
+                    if tm and gp:
+                        targs = [base_name(a) for a in tm.group(1).split(",") if not a.strip().startswith("'")]
+                        if len(targs) == len(gp) and not any(len(a) == 1 for a in targs):
+                            saved = self.type_env
+                            self.type_env = dict(saved)
+                            self.type_env.update(dict(zip(gp, targs)))
+                            try:
+                                return self.call_fn(f, args)
+                            finally:
+                                self.type_env = saved
                     return self.call_fn(f, args)
         if name in self.intr:
             self.stats.intrinsics.add(name)
@@ -604,8 +713,14 @@ class Exec:
         out = []
         for f in self.by_method.get(meth, []):
             info = impl_info(f.name)
-            if info and info[1] == selfn and (info[0] == traitn or (traitn is not None and info[0] is not None and info[0].endswith(traitn))):
-                out.append(f)
+            if info and info[1] == selfn:
+                tr = info[0]
+                if tr == traitn or (traitn is not None and tr is not None and (tr.endswith(traitn) or (tr.startswith("derive:") and traitn is not None))):
+                    out.append(f)
+        if len(out) > 1 and traitn is not None:
+            exact = [f for f in out if (impl_info(f.name)[0] or "").endswith(traitn)]
+            if len(exact) == 1:
+                out = exact
         return out[0] if len(out) == 1 else None
 
     def call_closure(self, clo, args):
@@ -635,6 +750,12 @@ class Exec:
             return
         if st.kind == "assign":
             v = self.eval_rvalue(f, frame, st.rv)
+            if st.rv.kind == "discriminant" and not st.place.proj:
+                ty = f.locals.get(st.place.local)
+                if ty in WIDTH and WIDTH[ty] != 64:
+                    v = Int(z3.Extract(WIDTH[ty] - 1, 0, v.e), ty)
+                elif ty in WIDTH:
+                    v = Int(v.e, ty)
             self.write_place(frame, st.place, v)
             return
         raise Unsupported("statement in %s: %s (%s)" % (f.name, getattr(st, "text", st.kind), getattr(st, "why", "")))
@@ -660,6 +781,8 @@ class Exec:
             if m:
                 return Closure(m.group(0))
             return Opaque("zst:" + c.val)
+        if c.kind == "fnitem":
+            return FnItem(c.val)
         if c.kind == "named":
             return self.eval_named_const(c.val)
         raise Unsupported("const " + repr(c))
@@ -682,11 +805,21 @@ class Exec:
                 f = self.find_impl(pm.group(3), base_name(pm.group(2)), base_name(pm.group(1)))
                 if f is not None:
                     cands = self.funcs.get(f.name + "::" + pm.group(4))
-            pm = re.match(r"^(\w+)(?:::<.*>)?::(\w+)::(promoted\[\d+\])$", name) if not cands else None
-            if pm:
-                f = self.find_impl(pm.group(2), None, pm.group(1))
+            segs = strip_generics(name).split("::") if not cands else []
+            if len(segs) >= 3 and re.fullmatch(r"promoted\[\d+\]", segs[-1]) and not name.startswith("<"):
+                f = self.find_impl(segs[-2], None, segs[-3])
                 if f is not None:
-                    cands = self.funcs.get(f.name + "::" + pm.group(3))
+                    cands = self.funcs.get(f.name + "::" + segs[-1])
+        if not cands:
+            km = re.fullmatch(r"(?:core::num::<impl )?([iu](?:8|16|32|64|128|size))>?::(MAX|MIN|BITS)", name.strip())
+            if km:
+                ty, what = km.group(1), km.group(2)
+                w = WIDTH[ty]
+                if what == "BITS":
+                    return Int(w, "u32")
+                if ty.startswith("u"):
+                    return Int((1 << w) - 1 if what == "MAX" else 0, ty)
+                return Int(((1 << (w - 1)) - 1) if what == "MAX" else (1 << (w - 1)), ty)
         if not cands:
             m = re.fullmatch(r"Option::<.*>::None", name)
             if m:
@@ -724,6 +857,14 @@ class Exec:
                 return Int(~a.e, a.ty)
             if rv.op == "Neg":
                 return Int(-a.e, a.ty)
+            if rv.op == "PtrMetadata":
+                t = a
+                while isinstance(t, Ref):
+                    t = self.read_ref(t)
+                if isinstance(t, Str):
+                    return usize(len(t))
+                if isinstance(t, (Arr, VecV)):
+                    return usize(len(t.items))
             raise Unsupported("unop " + rv.op)
         if k == "cast":
             a = self.eval_operand(frame, rv.a)
@@ -742,8 +883,12 @@ class Exec:
             v = self.read_place(frame, rv.place)
             if isinstance(v, Str):
                 return usize(len(v))
-            if isinstance(v, Arr):
+            if isinstance(v, (Arr, VecV)):
                 return usize(len(v.items))
+        if k == "repeat":
+            a = self.eval_operand(frame, rv.a)
+            n = int(re.sub(r"_usize$", "", rv.count.replace("const ", "").strip()))
+            return Arr([a] * n)
         raise Unsupported("rvalue " + k)
 
     def cast(self, a, ty, kind):
@@ -841,7 +986,7 @@ class Exec:
 
     def make_ref(self, frame, place):
         cell = self.cell_of(frame, place.local)
-        proj = list(place.proj)
+        proj = list(self.resolve_proj(frame, place.proj))
         # resolve leading derefs eagerly so that references never chain through dead frames
         cur_cell, cur_proj = cell, []
         for p in proj:
@@ -849,11 +994,13 @@ class Exec:
                 v = self.project(cur_cell.v, cur_proj)
                 if isinstance(v, Ref):
                     cur_cell, cur_proj = v.cell, list(v.proj)
-                elif isinstance(v, (Str, Arr)):
-                    # reborrow of an unsized view: the view itself is the reference
-                    return v
+                elif isinstance(v, (Str, Arr, VecV, Closure)):
+                    # an unsized view held by value: the view itself plays the role of the reference
+                    if p is proj[-1] and isinstance(v, Str):
+                        return v
+                    continue
                 else:
-                    raise Unsupported("deref of %r" % (v,))
+                    raise Unsupported("deref of %r" % (str(v)[:200],))
             else:
                 cur_proj.append(p)
         v = self.project(cur_cell.v, cur_proj) if cur_cell.v is not None else None
@@ -868,7 +1015,7 @@ class Exec:
             if k == "deref":
                 if isinstance(v, Ref):
                     v = self.read_ref(v)
-                elif isinstance(v, (Str, Arr, Closure)):
+                elif isinstance(v, (Str, Arr, Closure, VecV)):
                     pass
                 else:
                     raise Unsupported("deref of %r" % (v,))
@@ -885,15 +1032,47 @@ class Exec:
                 if not isinstance(v, Adt) or v.variant != p[1]:
                     raise Unsupported("downcast %s of %r" % (p[1], v))
             elif k == "constindex":
-                if isinstance(v, Arr):
+                if isinstance(v, (Arr, VecV)):
                     v = v.items[-p[1] if p[2] else p[1]]
+                elif isinstance(v, Str):
+                    v = Int(v.byte(len(v) - p[1] if p[2] else p[1]), "u8")
+                else:
+                    raise Unsupported("index of %r" % (v,))
+            elif k == "idx":
+                if isinstance(v, (Arr, VecV)):
+                    v = v.items[p[1]]
+                elif isinstance(v, Str):
+                    v = Int(v.byte(p[1]), "u8")
                 else:
                     raise Unsupported("index of %r" % (v,))
             else:
                 raise Unsupported("projection " + k)
         return v
 
+    def resolve_proj(self, frame, proj):
+        if not any(p[0] == "index" for p in proj):
+            return proj
+        out = []
+        for p in proj:
+            if p[0] == "index":
+                iv = frame[p[1]].v
+                c = iv.conc()
+                if c is None:
+                    c = None
+                    for k in range(0, 64):
+                        if self.decide(iv.e == k):
+                            c = k
+                            break
+                    if c is None:
+                        raise Unsupported("symbolic index")
+                out.append(("idx", c))
+            else:
+                out.append(p)
+        return tuple(out)
+
     def read_place(self, frame, place):
+        if place.proj:
+            place = M.Place(place.local, self.resolve_proj(frame, place.proj))
         c = frame.get(place.local)
         if c is None or c.v is None:
             if not place.proj:
@@ -902,7 +1081,7 @@ class Exec:
 
     def write_place(self, frame, place, val):
         cell = self.cell_of(frame, place.local)
-        self._write(cell, list(place.proj), val)
+        self._write(cell, list(self.resolve_proj(frame, place.proj)), val)
 
     def _write(self, cell, proj, val):
         if not proj:
@@ -932,6 +1111,13 @@ class Exec:
                 return Adt(v.ty, v.variant, fields)
         if p[0] == "downcast":
             return self._update(v, proj[1:], val)
+        if p[0] == "idx" and isinstance(v, VecV):
+            v.items[p[1]] = self._update(v.items[p[1]], proj[1:], val)
+            return v
+        if p[0] == "idx" and isinstance(v, Arr):
+            items = list(v.items)
+            items[p[1]] = self._update(items[p[1]], proj[1:], val)
+            return Arr(items)
         raise Unsupported("write projection %r on %r" % (p, v))
 
 
@@ -941,7 +1127,7 @@ def strip_generics(s):
     i = 0
     n = len(s)
     while i < n:
-        if s.startswith("::<", i) and not s.startswith("::<impl", i):
+        if s.startswith("::<", i):
             depth = 0
             j = i + 2
             while j < n:
@@ -952,6 +1138,9 @@ def strip_generics(s):
                     if depth == 0:
                         break
                 j += 1
+            # `::<impl str>::method` is a path segment (inherent impl), `f::<impl Trait>` at the end is a generic argument
+            if s.startswith("::<impl", i) and s.startswith("::", j + 1):
+                out.append(s[i:j + 1])
             i = j + 1
             continue
         out.append(s[i])
@@ -962,4 +1151,5 @@ def strip_generics(s):
 def norm_fn(func):
     s = strip_generics(func.strip())
     s = s.replace("'_, ", "").replace("<'_>", "")
+    s = re.sub(r"<impl \[[^\]]*\]>", "<impl [T]>", s)
     return s
